@@ -5,7 +5,7 @@
    read back to the same second for every second of 1678..2261 - C16_date_roundtrip, with a strict reader of the
    canonical text, the leniency of date::from_stream being outside the model). *)
 From Coq Require Import Ascii String List NArith ZArith Arith.
-Require Import Bytes NumParse NetLemmas HeaderModel HeaderLemmas DateModel DateSweepDefs DateLemmas.
+Require Import Bytes NumParse NetLemmas HeaderModel HeaderLemmas DateModel DateSweepDefs DateLemmas ParserModel TypedLookup.
 Import ListNotations.
 
 Theorem C16_content_length_roundtrip : forall n, (n <= 18446744073709551615)%N -> cl_parse (cl_write n) = n.
@@ -33,6 +33,14 @@ Print Assumptions C16_host_roundtrip.
 Theorem C16_lookup_first_occurrence : forall hs k, hdr_lookup (hdr_collect hs) k = first_ci hs k.
 Proof. exact lookup_ci. Qed.
 Print Assumptions C16_lookup_first_occurrence.
+
+(* the TYPED view (Collection::headers, what tryGet / get<H> read): for every sequence of parse effects - any message, any
+   segmentation, re-applied header blocks included - the value stored under a registry index is that of the FIRST typed
+   header of that index (registry indices are per lower-cased name: any capitalisation); tied to the code by the LT cases *)
+Theorem C16_typed_lookup_first_occurrence : forall (s : list ParserModel.eff) (i : N),
+  ParserModel.typed_get (ParserModel.apply ParserModel.msg_init s) (Some i) = first_typed i s.
+Proof. exact typed_get_first. Qed.
+Print Assumptions C16_typed_lookup_first_occurrence.
 
 Theorem C16_lookup_any_capitalisation : forall hs k k',
   ci_eqb k k' = true -> hdr_lookup (hdr_collect hs) k = hdr_lookup (hdr_collect hs) k'.
@@ -83,4 +91,18 @@ Example C16_ex_date :
      (list_of_string "Sat, 01 Jan 1678 00:00:00.000000000 UTC", Some date_lo);
      (list_of_string "Tue, 31 Dec 2261 23:59:59.000000000 UTC", Some date_hi);
      (list_of_string "Tue, 29 Feb 2000 00:00:00.000000000 UTC", Some 951782400)].
+Proof. vm_compute. reflexivity. Qed.
+
+(* non-vacuity of the typed lookup: a request with Host twice under two capitalisations, through the executable parser *)
+Require Import ParserInst.
+Local Open Scope string_scope.
+Example C16_ex_typed_first :
+  let s := list_of_string in
+  match whole typed_other_inst set_cookie_inst KRequest (s "GET / HTTP/1.1" ++ [c_cr; c_lf] ++ s "hOsT: first.example:8080" ++ [c_cr; c_lf]
+                                                         ++ s "HOST: second.example:81" ++ [c_cr; c_lf; c_cr; c_lf])%list with
+  | (PDone, st) => option_map (fun i => typed_get (p_msg st) (Some i))
+                     (find (fun i => bytes_eqb (lower_bytes (reg_name i)) (s "host")) (map N.of_nat (seq 0 64)))
+                   = Some (Some (s "first.example:8080"))
+  | _ => False
+  end.
 Proof. vm_compute. reflexivity. Qed.
